@@ -105,8 +105,8 @@ func (r *Rng) intn(n int) int {
 	}
 	return int(r.next() % uint64(n))
 }
-func (r *Rng) rng(lo, hi int) int { return lo + r.intn(hi-lo+1) } // inclusive
-func (r *Rng) coin(p float64) bool  { return float64(r.next()%1000000)/1000000 < p }
+func (r *Rng) rng(lo, hi int) int  { return lo + r.intn(hi-lo+1) } // inclusive
+func (r *Rng) coin(p float64) bool { return float64(r.next()%1000000)/1000000 < p }
 func (r *Rng) bytes(n int) []byte {
 	b := make([]byte, n)
 	for i := range b {
@@ -114,7 +114,7 @@ func (r *Rng) bytes(n int) []byte {
 	}
 	return b
 }
-func (r *Rng) pick(xs ...int) int { return xs[r.intn(len(xs))] }
+func (r *Rng) pick(xs ...int) int        { return xs[r.intn(len(xs))] }
 func (r *Rng) pickS(xs ...string) string { return xs[r.intn(len(xs))] }
 
 // G collects the generated cases of one run.
